@@ -228,6 +228,12 @@ def exec (conjv : K → K) (half : K) (st : St K) (cmd : List String) : Option (
     match indexHamiltonian st.L st.tbl with
     | none => some (st, ["o FUEL"])
     | some H => some ({ st with ham := H }, [s!"o poly {polyStr H}"])
+  | "hshift" :: rest =>
+    match readVal (K := K) rest with
+    | some (c, _) =>
+      let H := Poly.addConst c st.ham
+      some ({ st with ham := H }, [s!"o poly {polyStr H}"])
+    | none => none
   | "symm" :: mode :: rest =>
     let r : Except SymErr (List (Poly K)) :=
       if mode == "default" then computeDefault st.ham st.tbl false half
@@ -392,6 +398,10 @@ def replay (conjv : K → K) (half : K) (lines : List String) : IO Unit := do
       | none => pure ()
       lastDump := obs
       mustBeUnchanged := none
+    -- property oracle C07: the default analysis (and the one with symmetries ignored) completes without error
+    if (cmd == ["symm", "default"] || cmd == ["symm", "ignore"]) && obs.any (·.startsWith "o exc") then
+      IO.println s!"PROPFAIL[C07] cmd#{idx} {" ".intercalate cmd} :: the symmetry analysis fails with {obs.getD 0 "?"} on this lattice"
+      tally := tally.pfail
     match cmd with
     | ["getsite", lab] =>
       -- returns the site added under that label, fails for unknown labels
